@@ -13,7 +13,7 @@ prop, n = sys.argv[1], sys.argv[2]
 checks = None
 if "--checks" in sys.argv:
     checks = sys.argv[sys.argv.index("--checks") + 1].split(",")
-WT = "/tmp/seed/%s" % prop
+WT = "%s/%s" % (os.environ.get("SEED_ROOT", "/tmp/seed"), prop)
 OUT = "%s/out" % WT
 sid = "%s-m%s" % (prop, n)
 DST = "/verif/seeded/%s" % sid
@@ -79,7 +79,8 @@ if meta["confirmed"]:
             t0 = time.time()
             for attempt in range(2):
                 r = subprocess.run("./check %s --tier quick" % cid, cwd="/verif", shell=True, stdout=subprocess.PIPE,
-                                   stderr=subprocess.PIPE, text=True, timeout=3600, env=dict(os.environ, VERIF_REPO=WT, VERIF_MODEL_EXE="/verif/.build/scale_model-frozen" if os.path.exists("/verif/.build/scale_model-frozen") else ""))
+                                   stderr=subprocess.PIPE, text=True, timeout=3600, env=dict(os.environ, VERIF_REPO=WT, VERIF_MODEL_EXE="/verif/.build/scale_model-frozen" if os.path.exists("/verif/.build/scale_model-frozen") else "",
+                                            VERIF_HARNESS="/verif/.build/harness-frozen" if os.path.exists("/verif/.build/harness-frozen") else ""))
                 vio = [l for l in r.stdout.split("\n") if l.startswith("VIOLATION")]
                 # the harness under /verif may be mid-edit while this runs: a build failure that is
                 # not caused by the change under test disappears on a second attempt
